@@ -116,20 +116,22 @@ def memo_audit(rep, ex: Explorer, rule: str, kinds=("text", "local-id")):
     worlds = ["0", "1"]
     summ = _summ({f"{PO}.symbolize_bitvec": _lits_summary_for(ex)})
     n = 0
-    for fn in ("formula_rank", "filter_worlds_by_conditionalization", "compute_conditionalization", "conditionalize_existing_ranks", "conditional_acceptance"):
-        qual = f"{PO}.{fn}"
+    fns = ("formula_rank", "filter_worlds_by_conditionalization", "compute_conditionalization", "conditionalize_existing_ranks", "conditional_acceptance")
+    # (the base class and every subclass that overrides one of them)
+    for cls_, fn in [(c_, f_) for c_ in (PO, CUS, ZP, CR) for f_ in fns]:
+        qual = f"{cls_}.{fn}"
         if ex.prog.functions.get(qual) is None:
             continue
         site = fn_label(ex.prog, qual)
 
-        def setup(I, fn=fn):
+        def setup(I, fn=fn, cls_=cls_):
             ranks = I.alloc(HDict(entries={w: LinV(F.lin_term(("r", w))) for w in worlds}))
-            o = I.alloc(HObj(CUS, {"ranks": ranks, "signature": I.alloc(HList([("one", Const("a"))])), "conditionals": Const(None),
+            o = I.alloc(HObj(CUS if cls_ == PO else cls_, {"ranks": ranks, "signature": I.alloc(HList([("one", Const("a"))])), "conditionals": Const(None),
                                    "ranking_system": Const("custom"), "_metadata": I.alloc(HDict()), "_state": I.alloc(HDict())}))
             arg = make_query() if fn == "conditional_acceptance" else FormulaV(PHI, "pysmt")
             return [o, arg], {}
 
-        paths = ex.run(qual, setup, summaries=summ, key=f"memo-audit-{fn}")
+        paths = ex.run(qual, setup, summaries=summ, key=f"memo-audit-{cls_}-{fn}")
         n += 1
         found = {}
         for p in paths:
